@@ -1,10 +1,22 @@
-"""Per-property descriptions that go into the evidence files (rule text, trusted base)."""
+"""Per-property descriptions used for MANIFEST.json (tools/gen_manifest.py) and the evidence files."""
 
-LEAN_TB = "Lean 4.33.0 kernel; axioms allowed: propext, Classical.choice, Quot.sound (audited per theorem on every run)"
-CORR_TB = "correspondence check: harness generators, line-protocol codecs (Rust encoder, Lean decoder), diff in check.py"
+LEAN_TB = "Lean 4.33.0 kernel; axioms allowed: propext, Classical.choice, Quot.sound (audited per theorem with #print axioms on every run; thorough tier re-checks the module with leanchecker)"
+CORR_TB = "correspondence check: harness generators, line-protocol codecs (Rust encoder, Lean decoder), diff and classification in check.py"
+XARGS_TB = "clap 4.5 option parsing (modelled as last-occurrence-wins with positional indices), std::process::Command (argv passed through), exercised through the real xargs binary + recorder"
 
 INFO = {
+    "C04": {
+        "level_text": "Lean 4 theorems about a hand-written executable model of xargs' limiter chain and process_input loop: the appended arguments of the started commands concatenate to a prefix of the input and to all of it on completion (lossless, ordered), every command passes all limiters at once, operational and declarative readings of -n/-L/-s coincide (fits_iff), consecutive commands are maximal, empty-input and too-large behaviour, justification of status 1. Tied to /repo on every run by differential execution: the real xargs_main runs in-process with only the spawn replaced (hook), and the real binary runs with a recorder child; a Lean predicate written from the property text classifies every disagreement.",
+        "level_note": "Trusted: Lean kernel, correspondence harness/codecs; clap and std::process are exercised, not modelled in detail; the reader (C05) supplies the argument kinds.",
+        "technique": "Lean 4 proof (loop invariant by induction over the argument list) + differential correspondence against the compiled model",
+        "rule": "random argument sequences (0-60 words, mixed separators incl. blank-terminated lines) x initial-argument lists x -n/-L/-s (around exact fits)/-x/-r x small system budgets (environment padding) through in-process xargs_main with scripted executor; 300 (quick) / 6000 (thorough) of the same shapes through the xargs binary + recorder. non-trivial = at least two commands started or status 1; distinct = distinct request lines",
+        "trusted_base": [LEAN_TB, CORR_TB, XARGS_TB],
+        "assumptions": ["sysconf(_SC_ARG_MAX) and the environment size are read once per run and passed to the model as the system budget"],
+    },
     "C05": {
+        "level_text": "Lean 4 theorems about a hand-written executable model of the two xargs argument readers (chunk independence by simulation between the buffered reader and a one-pass tokenizer; generative word/quote/delimiter specification; unterminated quote = error; no empty argument), tied to /repo on every run by differential execution of the real private readers over caller-chunked streams (hook) and of the xargs binary against the compiled model; a Lean predicate written from the property text classifies every disagreement.",
+        "level_note": "Trusted: Lean kernel, correspondence harness/codecs; std BufReader::read_until and OsString plumbing are exercised, not modelled.",
+        "technique": "Lean 4 proof (simulation + generative spec) + differential correspondence against the compiled model",
         "rule": "hook cases: every byte string over {a,space,\\n,\\t,',\",\\\\,0xC3,0xA9,0xFF} up to length 5 (quick) / 6 (thorough) "
                 "x every chunking on the implementation side (impl answers compared with each other; any difference becomes a case), "
                 "one case per input plus a sample of chunkings sent to the buffered Lean model; random inputs up to 300 bytes and "
@@ -13,6 +25,29 @@ INFO = {
                 "distinct = distinct request lines",
         "trusted_base": [LEAN_TB, CORR_TB, "std BufReader::read_until (byte-delimited reader) is exercised, not modelled buffer by buffer"],
         "assumptions": ["a Read source is a finite list of non-empty chunks followed by EOF forever"],
-        "exhaustive": False,
+    },
+    "C06": {
+        "level_text": "Lean 4 theorem: with the system limiter configured as new_system does, every command process_input starts satisfies the kernel's execve acceptance predicate, for every argument sequence, environment and ARG_MAX (corollary of the C04 invariant plus the limiter's accounting); an oversize argument is never in a command and the run cannot succeed. The kernel predicate is a model of external code and is validated against the real kernel on every run (bisected boundaries under several RLIMIT_STACK values); the xargs binary is run under those stack limits and environments with up to 400k arguments and compared with the compiled model (proved-equal fast loop).",
+        "level_note": "Trusted: Lean kernel, harness; the Linux execve limits and glibc sysconf(_SC_ARG_MAX) are modelled (ExecLimit.lean) and validated on this machine's kernel only; program path assumed <= 2047 bytes.",
+        "technique": "Lean 4 proof over the batching model + validated kernel model + differential runs of the binary under RLIMIT_STACK",
+        "rule": "kernel-model cases: for each stack limit x (argument length, environment) shape the largest accepted argc is bisected on the real kernel and the boundary points (max, max+1, max-7, max+10) plus the single-argument length boundary are compared with the model; xargs cases: corpus of the repaired defects (400k 6-byte arguments, a 200000-byte argument, 100k 1-byte arguments under ulimit -s 256) plus random shapes (pointer-dominated, near-limit, oversize, mixed) x stack limits x environments x -n/-s. every case is non-trivial by construction; distinct = distinct request lines",
+        "trusted_base": [LEAN_TB, CORR_TB, "Linux execve limits as modelled in ExecLimit.lean (validated by the harness on this kernel)", "glibc sysconf(_SC_ARG_MAX)"],
+        "assumptions": ["page size 4096; MAX_ARG_STRLEN = 32 pages", "resolved program path shorter than 2048 bytes (POSIX headroom)"],
+    },
+    "C19": {
+        "level_text": "Lean 4 theorems about the model of process_input/execute/xargs_main: nothing is started after a fatal outcome; the exit status is the documented function of the outcomes of the started commands (124/125/126/127 for the fatal ones, else 123 iff some command failed, 0 iff all exited 0, 1 for xargs' own errors); non-fatal failures do not stop the run. Tied to /repo by in-process xargs_main with scripted child outcomes (every outcome sequence up to length 4/5 exhaustively) and by the binary with a recorder that exits or kills itself as scripted, plus missing / non-executable commands.",
+        "level_note": "Trusted: Lean kernel, harness; ExitStatus construction in the hook (from_raw) mirrors what wait() reports; real signals are exercised through the binary.",
+        "technique": "Lean 4 proof (invariant over the loop with a consumed-script prefix) + differential correspondence",
+        "rule": "all outcome sequences over {exit 0, exit 1, exit 125, exit 255, signal 9, not found, cannot run} up to length 4 and a quarter of length 5 (quick; thorough: length 5 fully, a third of length 6) with one argument per command and 0-2 extra inputs; random scripts up to 40 outcomes over random batching options; own errors (-n 0, -L 0, -s 0, unterminated quote, argument too large); binary runs with real exit codes and signals, missing and non-executable command. non-trivial = script of length >= 2 containing a non-zero outcome; distinct = distinct request lines",
+        "trusted_base": [LEAN_TB, CORR_TB, XARGS_TB],
+        "assumptions": [],
+    },
+    "C20": {
+        "level_text": "Lean 4 theorems about the model of the option layer and replace mode: one command per line with the line as the only argument (hence blanks do not split), argv = program + initial arguments with R replaced (str::replace semantics: absent pattern unchanged, first occurrence replaced and the inserted text not rescanned), empty input runs nothing with status 0, and the last-option-wins rule between -n, -L and the replace options including the -I with -n 1 exception. Tied to /repo by in-process xargs_main (real clap parsing, normalize_options, reader selection, execute's replacement) and the binary + recorder.",
+        "level_note": "Trusted: Lean kernel, harness; clap's indices_of/overrides_with behaviour is modelled as positional last-occurrence order and validated by the runs; to_string_lossy is the identity on the valid UTF-8 the generator produces.",
+        "technique": "Lean 4 proof (case analysis of normalize, induction over lines, fuel-free characterisation of replaceAll) + differential correspondence",
+        "rule": "random line lists (none, empty lines, blanks inside, R inside, multi-byte) x initial arguments with 0-3 embedded occurrences of R x R in {{}, _, %%, REPL, {} x spellings -I R / -i / --replace / --replace=R x -n/-L mixed in every order x -r; corpus: empty input without -r (repaired panic). non-trivial = several commands or a mode conflict; distinct = distinct request lines",
+        "trusted_base": [LEAN_TB, CORR_TB, XARGS_TB],
+        "assumptions": ["replacement strings and lines are valid UTF-8 (the code converts lossily)"],
     },
 }
